@@ -79,6 +79,7 @@ fn main() {
         ("psetcodec", "subsets") => psetcodec::subsets(rest, &mut out),
         ("psetcodec", "edits") => psetcodec::edits(rest, &mut out),
         ("psetcodec", "record") => psetcodec::record(rest, &mut out),
+        ("psetcodec", "sized") => psetcodec::sized(rest, &mut out),
         ("psetmerge", "replay") => psetmerge::replay(rest, &mut out),
         ("psetmerge", "keysources") => psetmerge::keysources(rest, &mut out),
         ("taproot", "replay") => taproot::replay(rest, &mut out),
